@@ -69,10 +69,10 @@ def oracle(ck, tier, deep):
             sig = dict(site="daun", degree=degree)
             rep = dict(degree=degree, n=n, dr=dr, reg=str(reg), basis_dir=bdir is not None, X=X.tolist())
             try:
-                M = quiet(abel.daun.daun_transform, np.eye(n), degree=degree, direction="forward")
-                cond = np.linalg.cond(M)
                 e1 = np.abs(f(f(X, "forward"), "inverse") - X).max()
                 e2 = np.abs(f(f(X, "inverse"), "forward") - X).max()
+                M = quiet(abel.daun._bs_daun, n, degree)           # (the generator itself: no cache is touched before the round trips)
+                cond = np.linalg.cond(M)
             except Exception as e:
                 ck.violation(dict(sig, clause="exception"), rep, f"{type(e).__name__}: {e}")
                 continue
